@@ -11,14 +11,18 @@ spec: specs/Lattice.tla, five parts.
    with s = 1/4 and s = 100 (cells of about 1 A and 500-1000 A); the emitted fractions are scaled in python
    integers and re-checked there; quantities that scale are judged with a purely relative tolerance.
  * PART "cache" (mode B): every behaviour of set_ubi / property reads / the caller editing the array it handed
-   to grain() or set_ubi is stepped through a real grain; each read must agree with a freshly constructed grain
+   to grain() or set_ubi is stepped through a real grain; the new values of a set_ubi arrive in a new array, in
+   the very array passed before (edited in place) or in the grain's own g.ubi (edited in place, set_ubi(g.ubi)):
+   object identity is not content; each read must agree with a freshly constructed grain
    of the matrix as it was at the call (and with the exact expectation), the returned array is overwritten by the
    caller after every read.  The pair of matrices is instantiated in several classes (harness only, the model is
    covariant in the pair): everything differs / same lattice rotated / same U other cell / one entry + 1e-7 /
    strains 5e-6, 1e-7, 3e-8 hydrostatic and shear.
  * PART "cache", OBJ "tmap" (mode B): the same state machine for TensorMap (constructor or from_ubis, new UBI map
    by setter / item / add_map, reads of UB mt unitcell B U in any order and any subset), on two differently
-   masked maps; every read bit-identical to the kernel chain of the current map.
+   masked maps; the new map arrives in a new array or in the array the container already holds (a = T.UBI, the
+   caller's own array or the view from_ubis made, overwritten in place, the SAME object - or a new view of its
+   memory - handed back by each of the three ways); every read bit-identical to the kernel chain of the values now in the UBI map.
  * PART "map": every pair of NaN masks of a 2x3 map through the vectorised kernels and TensorMap: NaN exactly on
    the mask, all other voxels bit-identical to the unmasked run.
  * PART "call": every way of calling a vectorised kernel: result allocated / passed positionally / as out=, the
@@ -474,11 +478,17 @@ class CacheBench(object):
         for k, op in enumerate(ops):
             if op[0] == "set":
                 cur = int(op[1])
-                held = self.ubi[cur].copy()
+                obj = op[3] if len(op) > 3 else "new"
                 try:
+                    if obj == "new":
+                        held = self.ubi[cur].copy()        # an array the grain has never seen
+                    else:
+                        if obj == "own":
+                            held = g.ubi                   # the array the grain itself holds ...
+                        held[...] = self.ubi[cur]          # ... / the very array passed before, edited in place
                     g.set_ubi(held)
                 except Exception as ex:        # noqa
-                    probs.append("step %d set_ubi raised %r" % (k + 1, ex))
+                    probs.append("step %d set_ubi (%s array) raised %r" % (k + 1, obj, ex))
                     break
                 continue
             if op[0] == "edit":
@@ -879,8 +889,20 @@ class TmapBench(object):
                 continue
             if op[0] == "set":
                 cur = int(op[1])
-                arr = self.map[cur].copy()
+                obj = op[3] if len(op) > 3 else "new"
                 try:
+                    if obj in ("same", "view"):
+                        # the array the container holds (the caller's own, or the view from_ubis made), edited in
+                        # place: voxels masked / unmasked, every lattice overwritten - and the same object handed back
+                        # (view: a new array object on the same memory)
+                        arr = T.UBI
+                        arr[...] = self.map[cur]
+                        if obj == "view":
+                            arr = arr[...]
+                            if arr is T.UBI or not np.shares_memory(arr, T.UBI):
+                                self.observations["T.UBI[...] is not a new view of the stored map"] = 1
+                    else:
+                        arr = self.map[cur].copy()
                     if op[2] == "setter":
                         T.UBI = arr
                     elif op[2] == "item":
@@ -888,7 +910,7 @@ class TmapBench(object):
                     else:
                         T.add_map("UBI", arr)
                 except Exception as ex:        # noqa
-                    probs.append("TensorMap step %d: assigning UBI (%s) raised %r" % (k + 1, op[2], ex))
+                    probs.append("TensorMap step %d: assigning UBI (%s, %s array) raised %r" % (k + 1, op[2], obj, ex))
                     break
                 continue
             f = op[1]
@@ -921,19 +943,28 @@ def case_key(c):
     return json.dumps([c["tri"], c["An"], c["Ad"], c["Un"], c["Ud"]] + ([c["scale"]] if c.get("scale") else []))
 
 
+def tlc_workers(n):
+    """committed values stand; VERIF_TLC_WORKERS caps them on a crowded box"""
+    return max(1, min(int(n), int(os.environ.get("VERIF_TLC_WORKERS", "16"))))
+
+
 class TLCPool(object):
-    """the TLC runs of this check do not depend on one another: start them together, collect in order"""
+    """the TLC runs of this check do not depend on one another: start them together, collect in order
+    (VERIF_TLC_JVMS = how many JVMs may be alive at the same time, default all; the results do not depend on it)"""
 
     def __init__(self):
         common.scratch()
         self.jobs = {}
+        self.gate = threading.Semaphore(max(1, int(os.environ.get("VERIF_TLC_JVMS", "16"))))
 
     def start(self, name, cfgname, **kw):
         box = {}
+        kw["workers"] = tlc_workers(kw.get("workers", 16))
 
         def work():
             try:
-                box["res"] = common.run_tlc("Lattice", os.path.join(common.SPECS, cfgname), **kw)
+                with self.gate:
+                    box["res"] = common.run_tlc("Lattice", os.path.join(common.SPECS, cfgname), **kw)
             except BaseException as ex:      # noqa
                 box["err"] = ex
         t = threading.Thread(target=work)
@@ -1079,6 +1110,7 @@ def run_cache(chk, rt, tier, bench, extra, col, pool):
     seen = set()
     per = dict((b.name, 0) for b in extra)
     nedit = 0
+    nobj = {"arg": 0, "own": 0}
     for job, what in runs:
         res = pool.get(job)
         chk.add_tlc("Lattice cache " + what, res, require_cover=("SetUbi", "Read", "EditArg"))
@@ -1105,6 +1137,10 @@ def run_cache(chk, rt, tier, bench, extra, col, pool):
             reads = [i for i, o in enumerate(ops) if o[0] == "read"]
             edits = [i for i, o in enumerate(ops) if o[0] == "edit"]
             nedit += bool(edits and reads and min(edits) < max(reads))
+            for o in ("arg", "own"):
+                # something is cached, then the values change inside an array object the grain already knows, then a read
+                so = [i for i in sets if len(ops[i]) > 3 and ops[i][3] == o and int(ops[i][1]) == 2]
+                nobj[o] += bool(so and reads and min(reads) < so[0] and max(sets) == so[0] and max(reads) > so[0])
             chk.case(key, nontrivial=bool(sets and reads and min(reads) < max(sets) < max(reads)) or
                      bool(edits and reads and min(edits) < max(reads)))
             chk.traces += 1
@@ -1117,15 +1153,17 @@ def run_cache(chk, rt, tier, bench, extra, col, pool):
     chk.notes["cache_behaviours_with_a_read_after_the_caller_edited_its_array"] = nedit
     chk.notes["cache_behaviours_per_class_of_second_matrix"] = per
     chk.notes["cache_occupancy_differs_from_model"] = drift     # model shape only, not part of the property
-    if nedit == 0 or any(v == 0 for v in per.values()):
-        raise common.MachineryError("vacuity: cache edits %d, classes %s" % (nedit, per))
+    chk.notes["cache_behaviours_read_new_values_in_a_known_array_object_read"] = nobj
+    if nedit == 0 or any(v == 0 for v in per.values()) or min(nobj.values()) == 0:
+        raise common.MachineryError("vacuity: cache edits %d, classes %s, known array objects %s" % (nedit, per, nobj))
     if tier == "thorough":
-        r6 = common.run_tlc("Lattice", os.path.join(common.SPECS, "Lattice_cache_d6.cfg"), workers=16, timeout=3000)
+        r6 = common.run_tlc("Lattice", os.path.join(common.SPECS, "Lattice_cache_d6.cfg"), workers=tlc_workers(16), timeout=3000)
         chk.add_tlc("Lattice cache depth 6 (invariants)", r6)
         if r6.violated:
             raise common.MachineryError("pinned-code cache model violates %s at depth 6" % r6.violated)
         # the defect classes the model is sensitive to: TLC must find them, the real code must not show them
-        for cfgname in ("Lattice_cache_forget.cfg", "Lattice_cache_nocopy.cfg", "Lattice_cache_alias.cfg"):
+        for cfgname in ("Lattice_cache_forget.cfg", "Lattice_cache_nocopy.cfg", "Lattice_cache_alias.cfg",
+                        "Lattice_cache_same.cfg"):
             rb = common.run_tlc("Lattice", os.path.join(common.SPECS, cfgname), workers=1, timeout=900)
             chk.add_tlc("Lattice " + cfgname[8:-4] + " (defect configuration, violation expected)", rb)
             if not set(rb.violated) & {"Coherent", "ReadFresh", "UbiOwn"}:
@@ -1146,7 +1184,7 @@ def run_cache(chk, rt, tier, bench, extra, col, pool):
 
 def run_tmap(chk, rt, tier, tb, col, pool):
     t0 = time.time()
-    nb, drift, nhist = 0, 0, {"partial": 0, "none": 0, "twice": 0, "from_ubis": 0}
+    nb, drift, nhist = 0, 0, {"partial": 0, "none": 0, "twice": 0, "from_ubis": 0, "same_object": 0, "same_object_view": 0, "view_object": 0}
     seen = set()
     for job, what in (("tmap_tr", "transitions depth 8"), ("tmap_all", "all behaviours depth %d" % (4 if tier == "quick" else 5))):
         res = pool.get(job)
@@ -1173,6 +1211,13 @@ def run_tmap(chk, rt, tier, tb, col, pool):
                 nhist["partial"] += bool(before) and len(before) < 5
                 nhist["twice"] += any(j == i + 1 for i, j in zip(sets, sets[1:]))
                 nhist["from_ubis"] += ops[0][1] == "from_ubis"
+                # a derived map is there, the other map is written into the array the container holds, the same
+                # object is handed back, then a read
+                for o in ("same", "view"):
+                    so = [i for i in sets if len(ops[i]) > 3 and ops[i][3] == o and int(ops[i][1]) == 2]
+                    hit = bool(so and min(reads) < so[0] and max(sets) == so[0] and max(reads) > so[0])
+                    nhist["same_object" if o == "same" else "view_object"] += hit
+                    nhist["same_object_view"] += hit and o == "same" and ops[0][1] == "from_ubis"
             chk.case(("tmap", key), nontrivial=bool(sets and reads and min(reads) < max(sets) < max(reads)))
             chk.traces += 1
             if nb == 700:
@@ -1184,21 +1229,24 @@ def run_tmap(chk, rt, tier, tb, col, pool):
     chk.case(("tmap", "empty"))
     chk.traces += 1
     chk.notes["tmap_maps_without_voxels"] = 3
-    if tier == "thorough":
-        rb = common.run_tlc("Lattice", os.path.join(common.SPECS, "Lattice_tmap_forget.cfg"), workers=1, timeout=900)
-        chk.add_tlc("Lattice tmap_forget (defect configuration, violation expected)", rb)
+    for cfgname in (("Lattice_tmap_forget.cfg", "Lattice_tmap_same.cfg") if tier == "thorough" else ()):
+        rb = common.run_tlc("Lattice", os.path.join(common.SPECS, cfgname), workers=1, timeout=900)
+        chk.add_tlc("Lattice " + cfgname[8:-4] + " (defect configuration, violation expected)", rb)
         if "Coherent" not in rb.violated and "ReadFresh" not in rb.violated:
-            raise common.MachineryError("Lattice_tmap_forget.cfg: TLC did not find the modelled defect")
+            raise common.MachineryError("%s: TLC did not find the modelled defect" % cfgname)
         ops = [list(o) for o in common.parse_tla(rb.trace[-1]["vars"]["hist"])] + [["read", f] for f in tb.FIELDS]
         probs, _ = tb.replay(ops)
         chk.traces += 1
         chk.case(("tmap", json.dumps(ops)))
-        chk.notes["counterexample_tmap_forget"] = {"ops": ops, "real_code_shows_it": bool(probs)}
+        chk.notes["counterexample_" + cfgname[8:-4]] = {"ops": ops, "real_code_shows_it": bool(probs)}
         for p in probs:
-            col.add(("tmap", "counterexample"), p, {"kind": "tmap", "ops": ops, "vox": tb.vox})
+            col.add(("tmap", "counterexample " + cfgname), p, {"kind": "tmap", "ops": ops, "vox": tb.vox})
     chk.notes["tmap_behaviours"] = nb
     chk.notes["tmap_reads_after_a_new_UBI_map"] = {"some_maps_computed_before": nhist["partial"], "nothing_computed_before": nhist["none"],
-                                                   "assigned_twice_in_a_row": nhist["twice"], "built_by_from_ubis": nhist["from_ubis"]}
+                                                   "assigned_twice_in_a_row": nhist["twice"], "built_by_from_ubis": nhist["from_ubis"],
+                                                   "map_computed_then_held_array_edited_in_place_and_handed_back": nhist["same_object"],
+                                                   "the_same_on_the_view_from_ubis_made": nhist["same_object_view"],
+                                                   "the_same_handed_back_as_a_new_view_of_the_held_memory": nhist["view_object"]}
     chk.notes["tmap_maps_present_differ_from_model"] = drift    # model shape only
     if tb.observations:
         chk.notes.setdefault("observations", {}).update(tb.observations)
@@ -1291,10 +1339,12 @@ def run(tier, replay=None):
                 "strained cubic, general rational bases incl. hexagonal/rhombohedral; U = Rz Ry Rx over right and Pythagorean "
                 "angles, at most two Pythagorean), each case also with the cell scaled by 1/4 and by 100; distinct = distinct "
                 "(lattice, U, scale); non-trivial = not (cubic and unrotated). "
-                "cache: every behaviour of set_ubi(2 matrices)/read(9 names)/caller edits the array it handed in, to the depth "
+                "cache: every behaviour of set_ubi(2 matrices x new array / the array passed before / g.ubi itself, edited in "
+                "place)/read(9 names)/caller edits the array it handed in, to the depth "
                 "bound + every transition of the reduced state graph, the pair of matrices in 8 classes; non-trivial = a read, "
                 "then a set_ubi, then a read, or a read after an edit. tmap: every behaviour of TensorMap construction (2 ways) / "
-                "new UBI map (2 maps x 3 ways) / read (5 maps) to the depth bound + every transition. map: all 4096 pairs of NaN "
+                "new UBI map (2 maps x 3 ways x new array / the held array overwritten in place and handed back / a new view of it) / read (5 maps) "
+                "to the depth bound + every transition. map: all 4096 pairs of NaN "
                 "masks of a 2x3 map (UBI mask, B mask); non-trivial = some voxel masked. call: all 10690 combinations of kernel x "
                 "result provision x previous buffer content x layout x NaN masks; non-trivial = not a plain allocating call")
     chk.assumptions = ["accuracy of the floating-point code away from the exactly representable instances is not decided",
@@ -1306,7 +1356,8 @@ def run(tier, replay=None):
                        "scales, classes of matrix pairs, call shapes and buffers are harness-side instance families (the model is "
                        "covariant in them); matrices 1e-7 away from an exact one are judged against a numpy reference at 1e-9",
                        "TensorMap hands out its maps by reference and keeps the caller's UBI array by design: writing into "
-                       "either is outside the property; eps_* / sig_* maps belong to C10"]
+                       "a derived map, or into the UBI array without handing it back (T.UBI = a / T['UBI'] = a / "
+                       "T.add_map('UBI', a)), is outside the property; eps_* / sig_* maps belong to C10"]
     chk.notes["tolerances"] = {"relative": REL, "absolute_dimensionless_only": ABSFLOOR, "angles_deg": ANGTOL}
     col = Collector()
     chk.exhaustive = True
@@ -1427,7 +1478,9 @@ def selftest(rt=None, cases=None, bench=None, mb=None, recs=None, cb=None, tb=No
                 if not [p for p in got if p[1] == fld and p[0].startswith("grain.")]:
                     raise common.MachineryError("selftest: perturbed expected %s accepted (scale %s)" % (pert, cc.get("scale")))
     if bench is not None:
-        for ops in ([["read", "U"], ["set", 2, "set_ubi"], ["read", "U"]], [["edit", 0], ["read", "mt"]]):
+        for ops in ([["read", "U"], ["set", 2, "set_ubi", "new"], ["read", "U"]], [["edit", 0], ["read", "mt"]],
+                    [["read", "B"], ["set", 2, "set_ubi", "own"], ["read", "B"]],
+                    [["read", "UB"], ["set", 2, "set_ubi", "arg"], ["read", "UB"]]):
             if not bench.replay(ops)[0] and not bench.replay(ops, perturb="stale")[0]:
                 raise common.MachineryError("selftest: stale cache expectation accepted")
     if mb is not None and recs:
@@ -1441,6 +1494,7 @@ def selftest(rt=None, cases=None, bench=None, mb=None, recs=None, cb=None, tb=No
             if not cb.judge(r) and not cb.judge(r, perturb="mask"):
                 raise common.MachineryError("selftest: perturbed NaN mask of a kernel call accepted")
     if tb is not None:
-        ops = [["new", "from_ubis"], ["read", "U"], ["set", 2, "item"], ["read", "U"], ["read", "mt"]]
-        if not tb.replay(ops)[0] and not tb.replay(ops, perturb="stale")[0] and not tb.observations:
-            raise common.MachineryError("selftest: stale TensorMap expectation accepted")
+        for obj in ("new", "same", "view"):
+            ops = [["new", "from_ubis"], ["read", "U"], ["set", 2, "item", obj], ["read", "U"], ["read", "mt"]]
+            if not tb.replay(ops)[0] and not tb.replay(ops, perturb="stale")[0] and not tb.observations:
+                raise common.MachineryError("selftest: stale TensorMap expectation accepted (%s array)" % obj)
